@@ -80,7 +80,9 @@ def Metadata.packetLen (k : Metadata) : Nat := k.fd.packetLen
 /-- `directive_param_field_len` -/
 def Metadata.paramLen (k : Metadata) : Int := k.fd.paramLen
 
-/-- the `options` setter -/
+/-- the `options` setter. (All three setters restore the old value and re-raise when the new
+    length is refused: in this functional model a refused setter returns the error and the object it
+    was applied to is, by construction, unchanged.) -/
 def Metadata.setOptions (k : Metadata) (opts : Option (List AnyTlv)) : Py Metadata := do
   let fd ← calcLen k.fd k.srcLv k.dstLv opts
   pure { k with fd := fd, options := opts }
